@@ -149,7 +149,7 @@ func GenProgram(t *rapid.T, c GenCfg) Program {
 	for i := 0; i < n; i++ {
 		op := Op{Kind: rapid.SampledFrom(kinds).Draw(t, "kind")}
 		switch op.Kind {
-		case "fill", "l0l0", "churn", "deepen":
+		case "fill", "l0l0", "churn", "deepen", "l0shape":
 			open[3] = 0
 		case "reopen":
 			open = [4]int{}
@@ -164,6 +164,26 @@ func GenProgram(t *rapid.T, c GenCfg) Program {
 				p.Ops = append(p.Ops, Op{Kind: "flush"})
 			}
 			p.Ops = append(p.Ops, Op{Kind: "backdate"}, Op{Kind: "compact", A: 0, B: 0, T: 1})
+			continue
+		case "l0shape": // macro: several L0 tables with narrow key windows (overlapping or not), then an L0 compaction
+			for j, m := 0, rapid.IntRange(2, 4).Draw(t, "tables"); j < m; j++ {
+				lo := rapid.IntRange(0, nk-1).Draw(t, "lo")
+				width := rapid.IntRange(1, 3).Draw(t, "width")
+				if j == m-1 && rapid.Bool().Draw(t, "wide") {
+					lo, width = 0, nk // the newest table spans everything written so far
+				}
+				p.Ops = append(p.Ops, Op{Kind: "begin", T: 3, RW: true, Ts: uint64(rapid.IntRange(1, 60).Draw(t, "rts"))})
+				for x, cnt := 0, rapid.IntRange(1, 4).Draw(t, "cnt"); x < cnt; x++ {
+					w := genWrite(t, p.Spec, c, 3, nk)
+					w.Key = lo + rapid.IntRange(0, width-1).Draw(t, "off")
+					if w.Key >= nk {
+						w.Key = nk - 1
+					}
+					p.Ops = append(p.Ops, w)
+				}
+				p.Ops = append(p.Ops, Op{Kind: "commit", T: 3, Ts: uint64(rapid.IntRange(1, 60).Draw(t, "cts"))}, Op{Kind: "flush"})
+			}
+			p.Ops = append(p.Ops, Op{Kind: "compact", A: 0, B: rapid.IntRange(0, 2).Draw(t, "worker"), T: rapid.SampledFrom([]int{0, 0, 2}).Draw(t, "pk")})
 			continue
 		case "churn": // macro: values in the value log, overwritten, flushed, compacted (discard stats), then GC
 			start := rapid.IntRange(0, nk-1).Draw(t, "start")
